@@ -9,7 +9,7 @@
    of the JAX primitives the code calls on leaves (dtype promotion lattice, broadcasting, element-wise
    arithmetic over Q, indexing, reshape) used to run the model against the real code; it is compared
    with JAX by harness/c20.py (the dtype tables exhaustively). *)
-From Coq Require Import ZArith QArith List Bool String Ascii Arith.
+From Coq Require Import ZArith QArith Qabs List Bool String Ascii Arith.
 From Furax Require Import Base.Pytree.
 Import ListNotations.
 Open Scope nat_scope.
@@ -26,11 +26,12 @@ Definition rbind {X Y} (r : res X) (f : X -> res Y) : res Y :=
 Definition rmap {X Y} (f : X -> Y) (r : res X) : res Y := rbind r (fun x => Ok (f x)).
 
 (* jax.tree.map over the leaves of one container (in leaf order; the first exception propagates) *)
-Fixpoint mapM {X Y} (f : X -> res Y) (l : list X) : res (list Y) :=
-  match l with
-  | [] => Ok []
-  | x :: t => rbind (f x) (fun y => rmap (cons y) (mapM f t))
-  end.
+Definition mapM {X Y} (f : X -> res Y) : list X -> res (list Y) :=
+  fix go (l : list X) : res (list Y) :=
+    match l with
+    | [] => Ok []
+    | x :: t => rbind (f x) (fun y => rmap (cons y) (go t))
+    end.
 (* ... over two containers of the same class *)
 Fixpoint map2M {X Y Z} (f : X -> Y -> res Z) (l : list X) (m : list Y) : res (list Z) :=
   match l, m with
@@ -42,6 +43,15 @@ Fixpoint foldM {X Y} (f : Y -> X -> res Y) (l : list X) (acc : Y) : res Y :=
   match l with
   | [] => Ok acc
   | x :: t => rbind (f acc x) (foldM f t)
+  end.
+
+(* total leaf functions seen as leaf operations, and the component-wise combination of two lists *)
+Definition lift1 {A} (g : A -> A) : A -> res A := fun x => Ok (g x).
+Definition lift2 {A} (g : A -> A -> A) : A -> A -> res A := fun x y => Ok (g x y).
+Fixpoint zip_with {A} (g : A -> A -> A) (l m : list A) : list A :=
+  match l, m with
+  | x :: t, y :: u => g x y :: zip_with g t u
+  | _, _ => []
   end.
 
 (* ---- the four container classes ---------------------------------------------------------------- *)
@@ -177,7 +187,7 @@ Section FromStokes.
   Variable A : Type.
   Variable promote_all : list A -> res (list A).    (* furax.tree.as_promoted_dtype on a tuple *)
 
-  (* StokesPyTree.from_stokes(*args, **keywords) *)
+  (* StokesPyTree.from_stokes(positional args, keywords) *)
   Definition from_stokes (args : list A) (kw : list (string * A)) : res (stokes A) :=
     match args, kw with
     | _ :: _, _ :: _ => Err TypeError
@@ -389,7 +399,9 @@ Definition binop_ty (x64 : bool) (o : bop) (a b : ty) (b_int_scalar : bool) : op
           if b_int_scalar then Some a
           else if (is_float (tdt a) || is_complex (tdt a)) && is_int (tdt b)
                then Some (mkTy (tdt a) (tweak a && tweak b))
-               else Some (promote2 x64 a b)
+               else let p := promote2 x64 a b in
+                    (* integer ** integer arrays: the result is never weakly typed *)
+                    if is_int (tdt a) && is_int (tdt b) then Some (mkTy (tdt p) false) else Some p
       end
   end.
 
@@ -436,7 +448,7 @@ Fixpoint bto {E} (s t : list nat) (d : list E) : list E :=
   match s, t with
   | n :: s', m :: t' =>
       let parts := map (bto s' t') (chunks n (prod s') d) in
-      if Nat.eqb n m then concat parts else concat (repeat (hd [] parts) m)
+      if Nat.eqb n m then List.concat parts else List.concat (repeat (hd [] parts) m)
   | _, _ => d
   end.
 Definition broadcast_data {E} (s t : list nat) (d : list E) : list E :=
@@ -464,7 +476,10 @@ Definition arr_bop (x64 : bool) (o : bop) (a b : arr Q) : res (arr Q) :=
   | None => Err OtherError
   | Some t =>
       match bshape (ashape a) (ashape b) with
-      | None => Err TypeError      (* incompatible shapes for broadcasting *)
+      | None =>                    (* incompatible shapes for broadcasting: lax raises TypeError
+                                      for equal ranks, jnp's shape promotion ValueError otherwise *)
+          if Nat.eqb (List.length (ashape a)) (List.length (ashape b))
+          then Err TypeError else Err ValueError
       | Some s =>
           rmap (mkArr s t)
                (map2M (qop o) (broadcast_data (ashape a) s (adata a))
@@ -499,10 +514,10 @@ Definition arr_getitem {E} (ix : index) (a : arr E) : res (arr E) :=
       match ix with
       | IInt i => Ok (mkArr rest (aty a) (nth (norm_idx n i) rows []))
       | ISlice lo hi =>
-          Ok (mkArr ((hi - lo) :: rest) (aty a) (concat (firstn (hi - lo) (skipn lo rows))))
+          Ok (mkArr ((hi - lo) :: rest) (aty a) (List.concat (firstn (hi - lo) (skipn lo rows))))
       | IArr l =>
           Ok (mkArr (List.length l :: rest) (aty a)
-                    (concat (map (fun i => nth (norm_idx n i) rows []) l)))
+                    (List.concat (map (fun i => nth (norm_idx n i) rows []) l)))
       end
   end.
 Definition arr_ravel {E} (a : arr E) : arr E := mkArr [prod (ashape a)] (aty a) (adata a).
@@ -525,6 +540,11 @@ Definition arr_reshape {E} (new : list Z) (a : arr E) : res (arr E) :=
   end.
 Definition on_arr {E} (f : arr E -> res (arr E)) (x : val E) : res (val E) :=
   match x with VArr a => rmap VArr (f a) | _ => Err AttributeError end.
+
+Definition val_shape {E} (x : val E) : list nat :=
+  match x with VArr a => ashape a | VSds s _ _ => s | VBad => [] end.
+Definition val_dt {E} (x : val E) : option dt :=
+  match x with VArr a => Some (tdt (aty a)) | VSds _ d _ => Some d | VBad => None end.
 
 (* ---- the helpers on concrete leaves ------------------------------------------------------------ *)
 Definition val_ty {E} (x : val E) : option ty :=
@@ -655,13 +675,29 @@ Definition dot_val (x64 : bool) (x y : pt (val gz)) : res (gz * option ty) :=
             (tree_dot gz gz0 gz_add gz_mul gz_conj (pmap arr_flat x) (pmap arr_flat y))
   else Err TypeError.
 
+(* rationals are shown as (numerator, denominator) pairs *)
+Definition qpair (q : Q) : Z * Z := (Qnum q, Zpos (Qden q)).
+Definition show_val (v : val Q) : val (Z * Z) :=
+  match v with
+  | VArr a => VArr (mkArr (ashape a) (aty a) (map qpair (adata a)))
+  | VSds s d w => VSds s d w
+  | VBad => VBad
+  end.
+Definition show_stokes (s : stokes (val Q)) : stokes (val (Z * Z)) := mkS (sk s) (map show_val (comps s)).
+Definition show_tree (t : pt (val Q)) : pt (val (Z * Z)) := pmap show_val t.
+
 (* ---- printable observations -------------------------------------------------------------------- *)
 Definition show_res {X Y} (f : X -> Y) (r : res X) : res Y := rmap f r.
 Definition dtable (x64 : bool) : list (list ty) :=
   map (fun a => map (fun b => node_ty x64 (join a b)) all_nodes) all_nodes.
-Definition optable (x64 : bool) (o : bop) (int_scalar : bool) : list (list (option ty)) :=
-  map (fun a => map (fun b => binop_ty x64 o (node_ty x64 a) (node_ty x64 b) int_scalar) all_nodes)
+(* scalar = true: both operands are 0-d, so an integer right operand is a concrete integer scalar *)
+Definition optable (x64 : bool) (o : bop) (scalar : bool) : list (list (option ty)) :=
+  map (fun a => map (fun b => binop_ty x64 o (node_ty x64 a) (node_ty x64 b)
+                                (scalar && is_int (tdt (node_ty x64 b)))) all_nodes)
       all_nodes.
+Definition all_bops : list bop := [Add; Sub; Mul; Div; Pow].
+Definition all_tables (x64 : bool) :=
+  (dtable x64, map (fun o => optable x64 o false) all_bops, map (fun o => optable x64 o true) all_bops).
 Definition triple_table (x64 : bool) : list (list (list (option ty))) :=
   map (fun a => map (fun b => map (fun c =>
         result_ty x64 [node_ty x64 a; node_ty x64 b; node_ty x64 c]) all_nodes) all_nodes) all_nodes.
